@@ -85,6 +85,9 @@ def _observe(m, kind, data, seed, state, with_dict, rec, poison='zero'):
             if with_dict:
                 rec['to_dict'] = _out(outcome(m.to_dict))
             rows = data.iloc[:4] if isinstance(data, pd.DataFrame) else None
+            if rows is None and isinstance(data, np.ndarray) and data.ndim == 2:
+                # a model trained on an ndarray labels its columns 0..d-1
+                rows = pd.DataFrame(data[:4].copy())
             if rows is not None:
                 rec['pdf'] = _out(outcome(m.probability_density, rows))
                 rec['cdf'] = _out(outcome(m.cumulative_distribution, rows))
